@@ -288,7 +288,9 @@ def is_place(op):
 
 
 def fn_of(term):
-    f = term["func"]
+    f = term.get("func")
+    if not f:
+        return None
     return f if f.get("k") == "fn" else None
 
 
@@ -821,6 +823,8 @@ class PathSens:
                 skey = (path, sp["l"])
                 if skey in facts and facts[skey][0] == "var":
                     facts[key] = ("const", facts[skey][1])
+                elif skey in facts and facts[skey][0] == "notvar":
+                    facts[key] = ("discr_of", skey, facts[skey][1])
                 else:
                     facts[key] = ("discr_of", skey)
             else:
@@ -867,7 +871,10 @@ class PathSens:
                 else:
                     out.append(("otherwise", (path, t["otherwise"]), facts))
                 return out
+            excluded = fact[2] if fact and fact[0] == "discr_of" and len(fact) > 2 else frozenset()
             for v, tgt in t["targets"]:
+                if v in excluded:
+                    continue
                 f2 = dict(facts)
                 if fact and fact[0] == "discr_of":
                     f2[fact[1]] = ("var", v)
@@ -875,7 +882,10 @@ class PathSens:
                 elif dkey is not None:
                     f2[dkey] = ("const", v)
                 out.append((v, (path, tgt), f2))
-            out.append(("otherwise", (path, t["otherwise"]), dict(facts)))
+            f3 = dict(facts)
+            if fact and fact[0] == "discr_of":
+                f3[fact[1]] = ("notvar", frozenset(excluded | set(vals)))
+            out.append(("otherwise", (path, t["otherwise"]), f3))
             return out
         if k == "call":
             f = fn_of(t)
